@@ -46,7 +46,7 @@ fn small_foreign(i: u32, ic: u8, levels: u8) -> Vec<u8> {
         entries,
         contents,
         placement: (i % 3) as u8,
-        layout: Layout { order: [0, 1, 2, 3], gaps: [0, 0, 0, 0, 0], ic, levels, fanout: 2, mixed: false, shuffle_leaves: false, empty_meta: i % 5 == 0, seed: u64::from(i) },
+        layout: Layout { order: [0, 1, 2, 3], gaps: [0, 0, 0, 0, 0], ic, levels, fanout: 2, mixed: false, shuffle_leaves: false, empty_meta: i % 5 == 0, seed: u64::from(i), loose_ptr: false, kind_coincidence: false },
         set: Settings::plain(ic),
         stored: [-1_800_000_000, -850_000_000, 1_800_000_000, 850_000_000, 21, -21],
         meta: Meta { kind: 1, seed: 5, n: 1 },
@@ -343,7 +343,7 @@ fn mutate(base: &[u8], seed: u64, n: u8) -> Vec<u8> {
 // ---------------------------------------------------------------------------------------------
 // crafted corpus: one archive per hazard class × codec
 
-pub const N_HAZARDS: u32 = 29;
+pub const N_HAZARDS: u32 = 32;
 
 fn one_tile_parts(ic: u8) -> Parts {
     let h = SpecHeader { ic, tc: 1, tt: 1, clustered: 1, n_addressed: 1, n_entries: 1, n_contents: 1, ..SpecHeader::default() };
@@ -459,6 +459,14 @@ pub fn crafted(id: u32) -> (String, Vec<u8>) {
                 Cols { count: 3, deltas: vec![5, 0, 0], runs: vec![1, 0, 1], lens: vec![4, ptr_len, 4], offs: vec![1, 1, 1] }
             };
             ("leaf pointer next to entries with the same tile id", join(&p, &dir_blob(ic, &c), &p.meta, &leaf, &p.data, |_| {}))
+        }
+        29 => ("entry count 2^60 and root length 2^62", join(&p, &dir_blob(ic, &Cols { count: 1 << 60, ..Cols::of(&p.root) }), &p.meta, &p.leaves, &p.data, |h| h.root_length = 1 << 62)),
+        30 => ("entry count 2^40 and root length 2^64-1", join(&p, &dir_blob(ic, &Cols { count: 1 << 40, ..Cols::of(&p.root) }), &p.meta, &p.leaves, &p.data, |h| h.root_length = u64::MAX)),
+        31 => {
+            // leaf pointer declaring a 2^32-1 byte leaf whose own entry count is 2^31
+            let leaf = dir_blob(ic, &Cols { count: 1 << 31, ..Cols::of(&p.root) });
+            let root = spec::compress(ic, &spec::encode_dir(&[SpecEntry { tile_id: 3, offset: 0, length: u32::MAX, run_length: 0 }])).unwrap();
+            ("leaf pointer of length 2^32-1 to a leaf with entry count 2^31", join(&p, &root, &p.meta, &leaf, &p.data, |_| {}))
         }
         _ => unreachable!("hazard class {hz}"),
     };
